@@ -1,8 +1,13 @@
 use super::cursor::{PublishedCursor, PublishedCursorReader, RewindableCursor};
+#[cfg(not(grevm_verif))]
 use std::{
     cmp::max,
     sync::atomic::{AtomicBool, AtomicUsize, Ordering},
 };
+#[cfg(grevm_verif)]
+use crate::verif::sync::atomic::{AtomicBool, AtomicUsize, Ordering};
+#[cfg(grevm_verif)]
+use std::cmp::max;
 
 #[derive(Debug)]
 struct ExecutionFrontier {
